@@ -22,6 +22,8 @@ pub enum Piece {
     /// element with an irregular declared length; `content` has exactly `declared` bytes
     Irr { g: u16, e: u16, vr: String, declared: u32, content: Vec<u8> },
     Seq { g: u16, e: u16, explicit: bool, items: Vec<PItem> },
+    /// encapsulated pixel data: offset table entries and fragments (odd fragment lengths allowed)
+    Pix { bot: Vec<u32>, frags: Vec<Vec<u8>> },
 }
 
 #[derive(Clone, Debug, Serialize, Deserialize)]
@@ -60,6 +62,26 @@ fn encode(pieces: &[Piece], ts: Ts, next_even: bool, out: &mut Vec<u8>) -> u32 {
                 if next_even && declared % 2 == 1 {
                     out.push(0x20);
                 }
+            }
+            Piece::Pix { bot, frags } => {
+                let h = ds::header_layout(ts, "OB", ds::PIXEL_DATA, ds::UNDEFINED).unwrap();
+                logical += h.len() as u32;
+                out.extend(h);
+                out.extend(ds::item_header(ts, ds::ITEM, (bot.len() * 4) as u32));
+                for o in bot {
+                    out.extend_from_slice(&if ts.big() { o.to_be_bytes() } else { o.to_le_bytes() });
+                }
+                logical += 8 + bot.len() as u32 * 4;
+                for f in frags {
+                    out.extend(ds::item_header(ts, ds::ITEM, f.len() as u32));
+                    out.extend_from_slice(f);
+                    if next_even && f.len() % 2 == 1 {
+                        out.push(0);
+                    }
+                    logical += 8 + f.len() as u32;
+                }
+                out.extend(ds::item_header(ts, ds::SEQ_DELIM, 0));
+                logical += 8;
             }
             Piece::Seq { g, e, explicit, items } => {
                 let mut body = vec![];
@@ -106,6 +128,9 @@ enum Exp<'a> {
     ItemStart { len: u32 },
     ItemEnd,
     SeqEnd,
+    PixStart,
+    Bot(&'a [u32]),
+    Frag { content: &'a [u8], len: u32 },
 }
 
 fn expect<'a>(pieces: &'a [Piece], ts: Ts, next_even: bool, out: &mut Vec<Exp<'a>>) -> u32 {
@@ -128,6 +153,24 @@ fn expect<'a>(pieces: &'a [Piece], ts: Ts, next_even: bool, out: &mut Vec<Exp<'a
                 out.push(Exp::Header { tag: (*g, *e), vr: rvr.clone(), len });
                 out.push(Exp::IrrValue { vr: rvr, content, len });
             }
+            Piece::Pix { bot, frags } => {
+                out.push(Exp::PixStart);
+                out.push(Exp::ItemStart { len: bot.len() as u32 * 4 });
+                if !bot.is_empty() {
+                    out.push(Exp::Bot(bot));
+                }
+                out.push(Exp::ItemEnd);
+                for f in frags {
+                    let len = if next_even && f.len() % 2 == 1 { f.len() as u32 + 1 } else { f.len() as u32 };
+                    out.push(Exp::ItemStart { len });
+                    if len > 0 {
+                        out.push(Exp::Frag { content: f, len });
+                    }
+                    out.push(Exp::ItemEnd);
+                }
+                out.push(Exp::SeqEnd);
+                logical += if ts.explicit() { 12 } else { 8 } + 8 + bot.len() as u32 * 4 + frags.iter().map(|f| 8 + f.len() as u32).sum::<u32>() + 8;
+            }
             Piece::Seq { g, e, explicit, items } => {
                 let idx = out.len();
                 out.push(Exp::SeqStart { tag: (*g, *e), len: 0 });
@@ -136,12 +179,14 @@ fn expect<'a>(pieces: &'a [Piece], ts: Ts, next_even: bool, out: &mut Vec<Exp<'a
                     let iidx = out.len();
                     out.push(Exp::ItemStart { len: 0 });
                     let l = expect(&it.pieces, ts, next_even, out);
-                    out[iidx] = Exp::ItemStart { len: if it.explicit { l } else { ds::UNDEFINED } };
+                    let adj = |x: u32| if next_even && x % 2 == 1 { x + 1 } else { x };
+                    out[iidx] = Exp::ItemStart { len: if it.explicit { adj(l) } else { ds::UNDEFINED } };
                     out.push(Exp::ItemEnd);
                     body_logical += if it.explicit { 8 + l } else { 16 + l };
                 }
                 out.push(Exp::SeqEnd);
-                out[idx] = Exp::SeqStart { tag: (*g, *e), len: if *explicit { body_logical } else { ds::UNDEFINED } };
+                let adj = |x: u32| if next_even && x % 2 == 1 { x + 1 } else { x };
+                out[idx] = Exp::SeqStart { tag: (*g, *e), len: if *explicit { adj(body_logical) } else { ds::UNDEFINED } };
                 let hl = if ts.explicit() { 12 } else { 8 };
                 logical += hl + body_logical + if *explicit { 0 } else { 8 };
             }
@@ -246,6 +291,7 @@ fn has_irr_followed(pieces: &[Piece]) -> bool {
             match x {
                 Piece::Reg(_) => out.push(false),
                 Piece::Irr { .. } => out.push(true),
+                Piece::Pix { frags, .. } => out.push(frags.iter().any(|f| f.len() % 2 == 1)),
                 Piece::Seq { items, .. } => {
                     out.push(false);
                     for it in items {
@@ -354,6 +400,9 @@ fn check(c: &Case, obs: &mut Obs) {
             (Exp::ItemStart { len }, DataToken::ItemStart { len: l }) => l.0 == *len,
             (Exp::ItemEnd, DataToken::ItemEnd) => true,
             (Exp::SeqEnd, DataToken::SequenceEnd) => true,
+            (Exp::PixStart, DataToken::PixelSequenceStart) => true,
+            (Exp::Bot(b), DataToken::OffsetTable(t)) => t[..] == b[..],
+            (Exp::Frag { content, len }, DataToken::ItemValue(v)) => v.len() == *len as usize && v[..content.len()] == content[..],
             (Exp::RegValue(e), DataToken::PrimitiveValue(v)) => match c.value_read {
                 1 => {
                     let got_vr = if enc.explicit() { crate::conv::vr_of(&e.vr) } else { crate::conv::vr_of(dict().implicit_vr(e.tag())) };
@@ -394,6 +443,7 @@ fn check(c: &Case, obs: &mut Obs) {
                 Exp::Header { .. } => "header",
                 Exp::RegValue(_) => "regular-value",
                 Exp::IrrValue { .. } => "irregular-value",
+                Exp::Frag { .. } => "fragment",
                 _ => "structure",
             };
             obs.fail(
@@ -518,12 +568,32 @@ fn group(depth: usize) -> BoxedStrategy<Vec<Piece>> {
     }
 }
 
+/// number of odd-length elements inside (each occupies one more physical byte under NextEven)
+fn odd_inside(pieces: &[Piece]) -> usize {
+    pieces
+        .iter()
+        .map(|p| match p {
+            Piece::Reg(_) => 0,
+            Piece::Irr { declared, .. } => (declared % 2) as usize,
+            Piece::Pix { .. } => 0, // never nested
+            Piece::Seq { items, .. } => items.iter().map(|i| odd_inside(&i.pieces)).sum(),
+        })
+        .sum()
+}
+
+/// Under NextEven a defined container length stays consistent only when at most one odd element lies
+/// inside (declared length odd => the reader adds exactly one byte): undefine the others.
 fn undefine(pieces: &mut [Piece]) {
     for p in pieces {
         if let Piece::Seq { explicit, items, .. } = p {
-            *explicit = false;
-            for it in items {
-                it.explicit = false;
+            let total: usize = items.iter().map(|i| odd_inside(&i.pieces)).sum();
+            if total > 1 {
+                *explicit = false;
+            }
+            for it in items.iter_mut() {
+                if odd_inside(&it.pieces) > 1 {
+                    it.explicit = false;
+                }
                 undefine(&mut it.pieces);
             }
         }
@@ -536,8 +606,26 @@ pub fn run(ctx: &Ctx) {
         "odd_lengths",
         "streams written by the reference encoder: regular elements, then 1-3 irregular elements of any VR (odd declared length, or a length that is not a multiple of the sample size; content valid for the VR) at top level and inside items (defined and undefined lengths), then sentinel elements; x {Accept, NextEven, Fail} x 3 syntaxes x {Interpreted, Preserved, Raw}; oracle: after every token position()==bytes consumed from a counting source, tokens equal the stream's skeleton (tags, VRs, lengths; values of regular elements; raw bytes of irregular ones), Fail errs at the first odd length; non-trivial = an irregular element followed by another element",
         || {
-            (prop_oneof![3 => group(0), 2 => group(1), 1 => group(2)], 0u8..3, 0u8..3, 0u8..3)
-                .prop_map(|(mut pieces, ts, odd, value_read)| {
+            let pix = (
+                prop_oneof![2 => Just(vec![]), 1 => proptest::collection::vec(any::<u32>(), 1..3)],
+                proptest::collection::vec((0usize..24).prop_flat_map(|n| proptest::collection::vec(any::<u8>(), n)), 1..4),
+            );
+            (
+                prop_oneof![3 => group(0), 2 => group(1), 1 => group(2)],
+                proptest::option::weighted(0.25, pix),
+                reg(0..3),
+                0u8..3,
+                0u8..3,
+                0u8..3,
+            )
+                .prop_map(|(mut pieces, pix, tail, ts, odd, value_read)| {
+                    if let Some((bot, frags)) = pix {
+                        if ts != 2 {
+                            // encapsulated pixel data: little-endian syntaxes only
+                            pieces.push(Piece::Pix { bot, frags });
+                            pieces.extend(tail);
+                        }
+                    }
                     if odd == 1 {
                         undefine(&mut pieces);
                     }
